@@ -157,6 +157,9 @@ func (a *engaAdversary) move(sc *engaSched) bool {
 	}
 	b := s.byz[rapid.IntRange(0, len(s.byz)-1).Draw(sc.t, "byzId")]
 	kind := rapid.IntRange(0, 9).Draw(sc.t, "byzKind")
+	if len(s.byz) >= 2 && rapid.IntRange(0, 3).Draw(sc.t, "byzCertSplit") == 0 && a.certSplit(sc, r, p) {
+		return true
+	}
 	switch {
 	case kind <= 4: // vote (possibly the second value of an equivocation)
 		steps := []step{soft, cert, next, next + 1, next + 2, late, redo, down, soft, cert}
@@ -223,6 +226,64 @@ func (a *engaAdversary) move(sc *engaSched) bool {
 	default: // build a bundle from votes seen on the wire (plus own equivocation pairs)
 		return a.bundle(sc, r, p)
 	}
+}
+
+// certSplit: two equivocators in one cert step whose FIRST votes are split: X1 votes the value that currently leads
+// (most soft/cert votes on the wire) and then another value, X2 the other value first and then the leading one; both
+// pairs go to the same drawn targets in this order. Honest trackers then hold an equivocator whose first vote was for the
+// value being certified next to one whose first vote was not — the shape genBundle has to get right when the quorum is
+// only reached with equivocator weight (voteTracker.go:192-204, 317-355).
+func (a *engaAdversary) certSplit(sc *engaSched, r round, p period) bool {
+	s := a.s
+	vals := a.knownValues(r)
+	if len(vals) < 2 {
+		return false
+	}
+	lead, best := vals[0], -1
+	for _, v := range vals {
+		n := len(s.votesSeen[engaVoteKey{r, p, cert, v}])*2 + len(s.votesSeen[engaVoteKey{r, p, soft, v}])
+		if n > best {
+			lead, best = v, n
+		}
+	}
+	var other proposalValue
+	for _, v := range vals {
+		if v != lead {
+			other = v
+			break
+		}
+	}
+	k := engaStepKey{r, p, cert}
+	if len(a.myVotes[k]) > 0 {
+		return false // already voted in this step
+	}
+	a.precondition(k)
+	x1, x2 := s.byz[0], s.byz[1]
+	if rapid.Bool().Draw(sc.t, "byzSplitSwap") {
+		x1, x2 = x2, x1
+	}
+	u1a, ok1 := a.makeVote(x1, k, lead)
+	u1b, ok2 := a.makeVote(x1, k, other)
+	u2a, ok3 := a.makeVote(x2, k, other)
+	u2b, ok4 := a.makeVote(x2, k, lead)
+	if !(ok1 && ok2 && ok3 && ok4) {
+		return false
+	}
+	dsts := a.targets(sc)
+	for _, uv := range []unauthenticatedVote{u1a, u1b, u2a, u2b} {
+		uv := uv
+		a.inject(x1, dsts, protocol.AgreementVoteTag, protocol.Encode(&uv))
+	}
+	// they also help the soft quorum for the leading value, so that honest cert votes appear at all
+	for _, b := range []*engaIdentity{x1, x2} {
+		if uv, ok := a.makeVote(b, engaStepKey{r, p, soft}, lead); ok {
+			a.inject(b, a.targets(sc), protocol.AgreementVoteTag, protocol.Encode(&uv))
+		}
+	}
+	s.stats.byzVotes += 4
+	s.stats.byzCertSplit++
+	s.tracef("BYZ cert-split equivocation (%d,%d): lead %.6s other %.6s to %v", r, p, lead.BlockDigest.String(), other.BlockDigest.String(), dsts)
+	return true
 }
 
 // bundle assembles, from votes seen on the wire, a bundle for some (r,p,step,value) that reaches the threshold.
